@@ -8,7 +8,7 @@
    encoder writes).  The cryptographic acceptance is decided by the check on the implementation
    (independent verifier); not a theorem. *)
 From Coq Require Import Strings.String.
-From LV Require Import Base.Bytes Base.Str Base.Res Model.HeaderEnc Model.Headers Model.Dkim Spec.Rfc5322 Spec.Dkim Proofs.DkimProofs Proofs.DkimBodyProofs Proofs.DkimHeaderProofs Proofs.DkimShapeCert.
+From LV Require Import Base.Bytes Base.Str Base.Res Model.HeaderEnc Model.Headers Model.Dkim Spec.Rfc5322 Spec.Dkim Proofs.DkimProofs Proofs.DkimBodyProofs Proofs.DkimHeaderProofs Proofs.DkimShapeCert Proofs.HeaderLinesProofs Proofs.HeaderShapeProofs.
 Local Open Scope nat_scope.
 
 (* For EVERY non-empty sequence of lines without an inner CRLF (any octets otherwise: bare CR, bare LF, NUL,
@@ -55,6 +55,35 @@ Theorem C13_certified_header_blocks : forall ser : bytes, certify ser = true ->
              canon_headers_relaxed ser = flat_map (fun f => spec_field_relaxed (sf_text f)) fs.
 Proof. exact certify_sound. Qed.
 
+(* ... and for one class of fields the shape is no longer a certificate but a theorem about the header encoder: for
+   EVERY constructor-accepted name and EVERY text value that is written verbatim and consists of printable ASCII words
+   (33..126) and spaces - any number and length of words, ANY runs of spaces between and around them, the empty value
+   included - the field HeaderValue::new writes IS the text of a well-shaped field of that name (the folding writer
+   never breaks a line directly after the colon and never leaves a continuation line of white space only) ... *)
+Theorem C13_plain_field_shape : forall name value : bytes,
+  header_name_ok name = true ->
+  Forall (fun w => allowed_str w = true) (split_inclusive_sp value) ->
+  forallb valc value = true ->
+  exists e f, header_value_encode name value = Ok e /\ header_line name e = sf_text f /\ sf_ok f /\ sf_name f = name.
+Proof. exact plain_value_shape. Qed.
+(* ... hence, the name being in lower case as it is when the pass runs, the code's pass over such a field is RFC 6376
+   3.4.2 applied to it *)
+Theorem C13_plain_field_relaxed : forall name value : bytes,
+  header_name_ok name = true ->
+  Forall (fun w => allowed_str w = true) (split_inclusive_sp value) ->
+  forallb valc value = true -> map to_lower name = name ->
+  exists e, header_value_encode name value = Ok e /\
+    canon_headers_relaxed (header_line name e) = spec_field_relaxed (header_line name e).
+Proof. exact plain_value_relaxed. Qed.
+Example C13_plain_field_example :
+  let v := bs " weekly   report for the department of redundancy department, part seventeen of the never ending series  " in
+  Forall (fun w => allowed_str w = true) (split_inclusive_sp v) /\ forallb valc v = true /\
+  match header_value_encode (bs "subject") v with
+  | Ok e => canon_headers_relaxed (header_line (bs "subject") e) =
+            bs "subject:weekly report for the department of redundancy department, part seventeen of the never ending series" ++ CRLF
+  | _ => False end.
+Proof. vm_compute. repeat split; repeat constructor. Qed.
+
 (* For EVERY tag list written before b= (any number of tags, any folding inside them, none of them named b,
    no ';' inside a tag), every spelling `n` of the tag name b and every signature text without ';' (any
    length, folded over any number of lines): deleting the value of b= from the field as emitted gives
@@ -93,3 +122,5 @@ Print Assumptions C13_signature_field_recovers_hashed_text.
 Print Assumptions C13_folded_signature_is_a_tag_value.
 Print Assumptions C13_relaxed_header_canonicalization.
 Print Assumptions C13_certified_header_blocks.
+Print Assumptions C13_plain_field_shape.
+Print Assumptions C13_plain_field_relaxed.
